@@ -635,6 +635,39 @@ def run_long(ctx: Ctx):
             ctx.count("long")
 
 
+def run_wide(ctx: Ctx):
+    """(round 6, seed C12-6) long AND wide: the TOTAL element count crosses 2^26 (a memory-bounding block size expressed in
+    elements makes one doubling round span several blocks, and a later block then reads partners an earlier block of the same
+    round has already overwritten). Exact non-commutative monoid on uint8: affine maps x -> a x + b over Z/256 stored as
+    (..., 2); (a1, b1) o (a2, b2) = (a1 a2, a1 b2 + b1). Oracle: sequential fold with the same op, compared exactly."""
+    def comp(f, g):
+        return torch.stack((f[..., 0] * g[..., 0], f[..., 0] * g[..., 1] + f[..., 1]), dim=-1)
+    combos = [(70, 2 ** 19, 0), (11, 2 ** 22, 0)] if ctx.quick else [(70, 2 ** 19, 0), (9, 2 ** 22, 0), (130, 2 ** 18, 1), (33, 2 ** 21, 0), (70, 2 ** 20, 0)]
+    for L, Wd, dim in combos:
+        for api, left in (("cumops", False), ("cumops_", True)):
+            case = {"kind": "wide", "L": L, "width": Wd, "dim": dim, "api": api, "left": left}
+            g = torch.Generator().manual_seed(L * 7 + Wd)
+            shape = (L, Wd, 2) if dim == 0 else (Wd, L, 2)
+            x = torch.randint(0, 256, shape, generator=g, dtype=torch.uint8)
+            ops = (lambda a, b: comp(b, a)) if left else comp
+            try:
+                y = getattr(pp(), api)(x.clone(), dim, ops)
+            except Exception as e:
+                ctx.fail(case, f"raises: {api} raised for L={L} x width {Wd}: {type(e).__name__}: {str(e)[:100]}")
+                continue
+            acc, bad = x.select(dim, 0), None
+            for j in range(1, L):
+                acc = ops(acc, x.select(dim, j))
+                if not torch.equal(y.select(dim, j), acc):
+                    bad = j
+                    break
+            if bad is not None:
+                ctx.fail(case, f"fold: {api}(left={left}) position {bad} of {L} items of {2 * Wd} uint8 elements each (total {2 * L * Wd} elements, "
+                               f"dim={dim}) is not the ordered fold of the first {bad + 1} items")
+            ctx.note_case(("wide", L, Wd, dim, api, left), True)
+            ctx.count("wide")
+
+
 # ----------------------------------------------------------------------------- grad-mode / call-order stream
 
 MODE_ORDERS = [("inference", "leaf", "plain", "nonleaf_"), ("no_grad", "nonleaf_", "inference", "leaf"),
@@ -800,6 +833,7 @@ def run(ctx: Ctx):
     run_mem(ctx, mcases)
     run_overlap(ctx)
     run_long(ctx)
+    run_wide(ctx)
     # plain tensors through every wrapper (deterministic corpus: every api x order x a few lengths/shapes/dtypes)
     pcases = []
     for api in ("cumprod", "cumprod_", "cummul", "cummul_"):
@@ -952,6 +986,8 @@ def replay(ctx: Ctx, case) -> bool:
         check_modes(ctx, c)
     elif kind == "long":
         run_long(ctx)
+    elif kind == "wide":
+        run_wide(ctx)
     for f in ctx.failures[n0:]:
         print("  fails:", f["what"])
     for d in ctx.disagreements:
